@@ -140,7 +140,7 @@ def language_check(pid, expr, ref_start, ref_step, ref_accept, extra_points, tru
                           f"{expr}.is_exact_match({acc_str!r}) is {a_nfa}, the standard says {a_ref}",
                           f"p = {expr}\nassert p.is_exact_match({acc_str!r}) == {a_ref}"))
     return viol, {'product_states': len(states), 'product_transitions': ntr, 'nfa_states': len(nfa.eps), 'cells': len(cells),
-                  'validated': validated, 'accepting': [s for s, a, r in states if a and r]}
+                  'validated': validated, 'accepting': [s for s, a, r in states if a and r], 'strings': [(s, r) for s, a, r in states]}
 
 
 def strip_boundaries(t):
@@ -228,6 +228,21 @@ def run_C18(run):
             continue
         if sel:
             embedded_check('C18', kind, sel, guard, v2, cnt)
+        # the non-extensible form exact-matches the same language (its guards are vacuous at the ends of the text):
+        # every access string of the product, accepted or not, through both instances' is_exact_match (plain and compiled)
+        pn, pnc = _mk(f'{kind}()'), _mk(f'{kind}()')
+        pnc.compile()
+        nbad = 0
+        for i, (s, want) in enumerate(st.get('strings', [])):
+            cnt['nonextensible_exact'] = cnt.get('nonextensible_exact', 0) + 1
+            try:
+                got = (pnc if i % 2 else pn).is_exact_match(s)
+            except Exception as e:  # noqa: BLE001
+                got = 'raised ' + type(e).__name__
+            if got != want and nbad < 5:
+                nbad += 1
+                v2.append(V(f'C18|{kind}()|exact|{s}', f"{kind}().is_exact_match({s!r}) is {got}, the standard says {want}",
+                            f"p = {kind}()\nassert p.is_exact_match({s!r}) == {want}\np.compile()\nassert p.is_exact_match({s!r}) == {want}"))
         run.add(v2)
         for k, v in cnt.items():
             tot[k] = tot.get(k, 0) + v
@@ -246,12 +261,12 @@ def run_C18(run):
         run.sample(s)
     cov = {
         'states': tot['product_states'], 'transitions': tot['product_transitions'],
-        'traces_validated_against_impl': tot['validated'] + tot.get('embedded_texts', 0),
-        'evaluations': tot['product_transitions'] + tot.get('embedded_texts', 0), 'distinct_nontrivial': tot['product_states'],
+        'traces_validated_against_impl': tot['validated'] + tot.get('embedded_texts', 0) + tot.get('nonextensible_exact', 0),
+        'evaluations': tot['product_transitions'] + tot.get('embedded_texts', 0) + tot.get('nonextensible_exact', 0), 'distinct_nontrivial': tot['product_states'],
         'rule': 'explicit-state BFS over the product of (NFA of the emitted extensible pattern) x (hand-written RFC 4291 / dotted-quad automaton); '
                 'acceptance must agree in every reachable product state, so the verdict covers every string over the partitioned alphabet, of any length; '
                 'every access string is replayed on re.fullmatch/is_exact_match (validates the NFA translation) and on ipaddress (validates the reference); '
-                'non-extensible forms: guard structure + every accepted access string in 36 left/right contexts',
+                'non-extensible forms: every access string (accepted or not) through is_exact_match of a plain and a compiled instance; every accepted access string in 36 left/right contexts',
         'exhaustive': True,
         'bounds': {'alphabet': 'every digit / hex digit / separator its own cell, all other characters in the cells induced by the pattern',
                    'string_length': 'unbounded (reachable product states)'},
@@ -279,18 +294,20 @@ def numeral_ref(base, lo, hi):
     return step, accept
 
 
-def _task17_numeral(bases):
+def _task17_numeral(arg):
+    bases, thorough = arg
     viol = []
     cnt = {'numeral_patterns': 0, 'numeral_candidates': 0, 'product_states': 0, 'product_transitions': 0, 'validated': 0}
     for base in bases:
         valid = set(DIGITS[:base] + DIGITS[:base].upper())
         sigma = ['0', DIGITS[base - 1], DIGITS[base - 1].upper(), DIGITS[base] if base < 16 else 'g', 'g', '_']
         sigma = list(dict.fromkeys(sigma))
-        for lo, hi in [(a, b) for a in (0, 1, 2, 3) for b in (0, 1, 2, 3, None) if b is None or a <= b]:
+        los, his = ((0, 1, 2, 3, 4, 5), (0, 1, 2, 3, 4, 5, 6, None)) if thorough else ((0, 1, 2, 3), (0, 1, 2, 3, None))
+        for lo, hi in [(a, b) for a in los for b in his if b is None or a <= b]:
             top = (hi if hi is not None else lo + 1) + 2
             cands = [''.join(t) for l in range(1, top + 1) for t in itertools.product(sigma, repeat=l)]
-            if len(cands) > 4000:
-                cands = [c for c in cands if len(set(c)) <= 2 or len(c) <= 3]
+            if len(cands) > (60000 if thorough else 4000):
+                cands = [c for c in cands if len(set(c)) <= 2 or len(c) <= (4 if thorough else 3)]
             for ext in (False, True):
                 expr = f"Numeral({base}, {lo}, {hi}{', is_extensible=True' if ext else ''})"
                 try:
@@ -344,10 +361,11 @@ def word_runs(t):
     return out
 
 
-def _task17_word(params):
+def _task17_word(arg):
+    params, thorough = arg
     viol = []
     cnt = {'word_patterns': 0, 'word_texts': 0}
-    texts = [''.join(t) for l in range(0, 7) for t in itertools.product(WSIG, repeat=l)]
+    texts = [''.join(t) for l in range(0, 9 if thorough else 7) for t in itertools.product(WSIG, repeat=l)]
     for lo, hi, gl in params:
         expr = f"Word({lo}, {hi}, is_global={gl})"
         try:
@@ -473,13 +491,16 @@ def _task17_affix(lists):
 
 def run_C17(run):
     tot = {}
-    res = common.pmap(_task17_numeral, [[b] for b in range(2, 17)])
-    wp = [(lo, hi, gl) for lo in (1, 2, 3) for hi in (1, 2, 3, None) if hi is None or lo <= hi for gl in (True, False)]
-    res += common.pmap(_task17_word, common.chunks(wp, 2))
+    thorough = run.tier == 'thorough'
+    res = common.pmap(_task17_numeral, [([b], thorough) for b in range(2, 17)])
+    wlo, whi = ((1, 2, 3, 4, 5), (1, 2, 3, 4, 5, 6, None)) if thorough else ((1, 2, 3), (1, 2, 3, None))
+    wp = [(lo, hi, gl) for lo in wlo for hi in whi if hi is None or lo <= hi for gl in (True, False)]
+    res += common.pmap(_task17_word, [(c, thorough) for c in common.chunks(wp, 2)])
     singles = [(a,) for a in AFFIXES]
     pairs = [(a, b) for a in AFFIXES[:7] for b in AFFIXES[:7] if a != b]
     if run.tier == 'thorough':
         pairs = [(a, b) for a in AFFIXES for b in AFFIXES if a != b]
+        pairs += [(a, b, c) for a in AFFIXES[:6] for b in AFFIXES[:6] for c in AFFIXES[:8] if len({a, b, c}) == 3]
     res += common.pmap(_task17_affix, common.chunks(singles + pairs, 4))
     for viol, cnt in res:
         run.add(viol)
@@ -568,10 +589,10 @@ def run_C17(run):
         'states': tot['numeral_patterns'] + tot['word_patterns'] + tot['affix_patterns'] + tot['product_states'],
         'transitions': n, 'traces_validated_against_impl': n - tot['product_transitions'] + tot['validated'], 'evaluations': n,
         'distinct_nontrivial': tot['numeral_patterns'] + tot['word_patterns'] + tot['affix_patterns'],
-        'rule': 'Numeral: all bases 2..16 x (n_min, n_max) in {0..3} x {0..3, None} x is_extensible x every string of length <= n_max+2 over '
+        'rule': 'Numeral: all bases 2..16 x (n_min, n_max) in {0..3} x {0..3, None} (thorough: {0..5} x {0..6, None}) x is_extensible x every string of length <= n_max+2 over '
                 '{a valid digit, the largest digit in both cases, the smallest invalid digit, g, _}, plus the automaton product of every extensible '
-                'Numeral with a counting reference (whole language); Word: bounds x is_global x every text of length <= 6 over {a,_,1,space,-}; '
-                'Word*: affix lists of 1-2 literal strings incl. metacharacters x u+affix+v and all single-edit neighbours',
+                'Numeral with a counting reference (whole language); Word: bounds x is_global x every text of length <= 6 (thorough: 8) over {a,_,1,space,-}; '
+                'Word*: affix lists of 1-2 (thorough: 1-3) literal strings incl. metacharacters x u+affix+v and all single-edit neighbours',
         'exhaustive': True, 'bounds': {'bases': '2..16', 'affixes': AFFIXES},
     }
     return cov, ['word characters are [A-Za-z0-9_] in the candidate texts (is_global differences are Unicode-only)']
